@@ -30,7 +30,7 @@ fn run_text(ty: &Ty, cap: usize, d: &[u8], steps: Vec<Step>) -> (Result<String, 
     let rd = KindReader(SchedReader::new(d, steps));
     let tr = TextReader::builder().buffer_len(cap).build(rd);
     let mut de = TextDeserializer::from_windows1252_reader(tr);
-    let r = TySeed(ty).deserialize(&mut de).map_err(|e| e.to_string());
+    let r = TySeed(ty).deserialize(&mut de).map_err(|e| format!("{}|{}", kind_class(&e), e));
     (r, 0, 0)
 }
 
@@ -41,7 +41,18 @@ fn run_bin(ty: &Ty, cap: usize, d: &[u8], steps: Vec<Step>) -> Result<String, St
     b.on_failed_resolve(FailedResolveStrategy::Stringify);
     b.reader_config(BinReader::builder().buffer_len(cap));
     let mut de = b.from_reader(rd, &res);
-    TySeed(ty).deserialize(&mut de).map_err(|e| e.to_string())
+    TySeed(ty).deserialize(&mut de).map_err(|e| format!("{}|{}", kind_class(&e), e))
+}
+
+/// error class by KIND (message texts may change freely)
+fn kind_class(e: &jomini::Error) -> &'static str {
+    match e.kind() {
+        jomini::ErrorKind::Io(_) => "io",
+        jomini::ErrorKind::Eof => "eof",
+        jomini::ErrorKind::BufferFull => "full",
+        jomini::ErrorKind::Deserialize(_) => "de",
+        _ => "syntax",
+    }
 }
 
 fn count_calls(d: &[u8], step: usize, cap: usize, text: bool, ty: &Ty) -> usize {
@@ -100,8 +111,14 @@ pub fn exec(w: &[&str], obs: &mut Obs) -> Option<String> {
                         }
                         (Ok(v), _) => { obs.violation("fault-wrong-value", &case, &format!("fault at read call {} (persistent={}, kind {:?}): Ok({}) but fault-free result is {:?}", i, persistent, KINDS[kind], v, clean)); }
                         (Err(e), _) => {
-                            let io = e.to_lowercase().contains("injected") || e.to_lowercase().contains("i/o") || e.to_lowercase().contains("io error") || e.to_lowercase().contains("failed to read");
-                            if !io { obs.count("fault:error-not-io-text"); }
+                            // the run is identical to the fault-free one up to read call i, where the read fails: the
+                            // failure must reach the caller as an I/O error (by kind).  The only other acceptable outcome is
+                            // the fault-free run's own error (a transient fault that was retried, for a document the target rejects)
+                            let cls = e.split('|').next().unwrap_or("");
+                            let clean_cls = match &clean { Err(c) => c.split('|').next().unwrap_or("").to_string(), Ok(_) => "ok".to_string() };
+                            if cls != "io" && !(cls == clean_cls && !persistent) {
+                                obs.violation("fault-not-io-error", &case, &format!("fault of kind {:?} at read call {} (persistent={}) of {} surfaced as `{}`, not as an I/O error (fault-free result class: {})", KINDS[kind], i, persistent, ncalls, e, clean_cls));
+                            }
                         }
                     }
                 }
